@@ -467,6 +467,15 @@ func decScaled(d sdk.Dec, scale int64) interface{} {
 	return d.String()
 }
 
+// holderName is the model name of a holder-list address; the list is matched case-sensitively against lower-case
+// hex by the commission code, so an address that is not in that form keeps its raw spelling
+func (w *World) holderName(addr string) string {
+	if addr != strings.ToLower(addr) {
+		return "raw:" + addr
+	}
+	return w.N.Name(addr)
+}
+
 func (w *World) projectOracle(ctx sdk.Context) J {
 	k := w.K.Oracle
 	out := J{"ep": unum(k.GetCurrentEpoch(ctx))}
@@ -480,7 +489,7 @@ func (w *World) projectOracle(ctx sdk.Context) J {
 	hold := []interface{}{}
 	if h := k.GetHolders(ctx); h != nil {
 		for _, it := range h.List {
-			hold = append(hold, []interface{}{w.N.Name(it.Address), num(it.Value)})
+			hold = append(hold, []interface{}{w.holderName(it.Address), num(it.Value)})
 		}
 	}
 	out["hold"] = hold
@@ -488,7 +497,7 @@ func (w *World) projectOracle(ctx sdk.Context) J {
 	if h := k.GetHolders(ctx); h != nil {
 		e18 := sdk.NewIntWithDecimal(1, 18)
 		for _, it := range h.List {
-			holdw[w.N.Name(it.Address)] = num(it.Value.Quo(e18))
+			holdw[w.holderName(it.Address)] = num(it.Value.Quo(e18))
 		}
 	}
 	out["holdw"] = holdw
@@ -524,7 +533,7 @@ func (w *World) projectOracle(ctx sdk.Context) J {
 			if gc, ok := c.(*oracletypes.GenericClaim); ok && gc.GetHoldersClaim() != nil {
 				l := []interface{}{}
 				for _, it := range gc.GetHoldersClaim().GetHolders().List {
-					l = append(l, []interface{}{w.N.Name(it.Address), num(it.Value)})
+					l = append(l, []interface{}{w.holderName(it.Address), num(it.Value)})
 				}
 				claims = append(claims, J{"by": vc.Name, "kind": "holders", "ep": unum(ep), "list": l})
 			}
